@@ -475,7 +475,40 @@ def _empty_result(job):
 
 
 def process_chunk(chunk):
-    return [process_case(j) for j in chunk]
+    """Each case runs in a forked child of the worker, so that an abort inside onnxruntime (a C++
+    assertion kills the process) costs exactly that case: it comes back as `died`."""
+    import os
+    import pickle
+
+    out = []
+    for j in chunk:
+        r_fd, w_fd = os.pipe()
+        pid = os.fork()
+        if pid == 0:  # child
+            code = 0
+            try:
+                os.close(r_fd)
+                data = pickle.dumps(process_case(j))
+                with os.fdopen(w_fd, "wb") as w:
+                    w.write(data)
+            except BaseException:  # noqa: BLE001
+                code = 1
+            finally:
+                os._exit(code)
+        os.close(w_fd)
+        chunks_ = []
+        with os.fdopen(r_fd, "rb") as r:
+            while True:
+                b = r.read(1 << 16)
+                if not b:
+                    break
+                chunks_.append(b)
+        os.waitpid(pid, 0)
+        try:
+            out.append(pickle.loads(b"".join(chunks_)))
+        except Exception:  # noqa: BLE001
+            out.append(dict(_empty_result(j), died=True))
+    return out
 
 
 def process_case(args):
@@ -787,7 +820,7 @@ def witness_programs():
 def gen_programs(ck):
     rng = ck.rng
     progs = []
-    n = ck.pick(1500, 30000)
+    n = ck.pick(1200, 20000)
     for i in range(n):
         r = rng.random()
         clean = r < 0.85
@@ -1054,6 +1087,8 @@ def run(ck: core.Check):
         if r.get("died"):
             # the process running this case was killed (an abort inside onnxruntime): recorded, not a verdict
             stats["worker_deaths"] = stats.get("worker_deaths", 0) + 1
+            if len(deaths) < 3:
+                deaths.append({"prog": prog, "how": "process died"})
             continue
         if r["crash"]:
             stats["worker_crashes"] += 1
